@@ -223,7 +223,7 @@ func spaces(tier string) []kit.Space {
 	for _, v := range variants() {
 		v := v
 		k := n
-		if v.name == "program.raw" || strings.HasPrefix(v.name, "template.") && !strings.Contains(v.name[9:], ".") {
+		if v.name == "program.raw" || v.name == "template.html" || tier == "thorough" && strings.HasPrefix(v.name, "template.") && !strings.Contains(v.name[9:], ".") {
 			k = n + 1 // raw byte variants are the primary space: one symbol deeper
 		}
 		en := kit.NewStringsUpTo(v.alpha, k)
